@@ -21,7 +21,9 @@ CHECKS = {
             "Every interleaving of user operations, intake steps and sync steps of every history of <=2 user operations "
             "(27-op alphabet, one- and two-sided) is executed on the real CloudSync over MockProviders; at every quiet "
             "state both trees must be equal modulo .conflicted files, and the fair schedule must reach a quiet state from "
-            "every reachable state. This is a coverage statement over schedules that the wall-clock driven tests cannot give.",
+            "every reachable state; a state that no step changes any more but in which the engine still reports pending work counts "
+            "as looping. Phased histories start the exploration from the end state of an earlier two-sided history. This is a "
+            "coverage statement over schedules that the wall-clock driven tests cannot give.",
             NOTE_E1, "5/C01"),
     "C02": ("seqx", TECH_E1,
             "All 1+1 two-sided histories over a collision alphabet (same-path create/create, edit/edit, edit/delete, "
@@ -31,13 +33,14 @@ CHECKS = {
             "another object at its name while the other side edits, moves or deletes either file; id- and path-addressed flavours) "
             "is explored in every interleaving; a lost version is reported with the engine call site that removed its last copy.", NOTE_E1, "5/C02"),
     "C03": ("seqx", TECH_E1,
-            "All one-sided histories (<=2 ops; 3 ops deviation-bounded in thorough) in both directions from three base trees, "
-            "every interleaving: exact mirror at quiet state, no effective engine write on the origin side after any step, "
+            "All one-sided histories (<=2 ops; 3 ops deviation-bounded in thorough) in both directions from three base trees, all "
+            "143 three-operation chains on one object family, and folder histories on accounts that report folder deletions "
+            "without ids, every interleaving: exact mirror at quiet state, no effective engine write on the origin side after any step, "
             "no mutating call in three further rounds.", NOTE_E1, "5/C03"),
     "C04": ("seqx", TECH_E1,
             "All ancestry-disjoint 1+1 pairs of operations from base B2 in every interleaving (2+1 deviation-bounded in "
             "thorough), plus 3-4 operation chains around a folder rename (edit child, rename folder, follow-up on the child at "
-            "its new path, move it back) and two rename cycles (files swapping names through a temporary name) against an unrelated operation on the other side, explored with <=1 (2) deviations "
+            "its new path, move it back) two rename cycles (files swapping names through a temporary name) and three replace-by-rename chains against an unrelated operation on the other side, explored with <=1 (2) deviations "
             "from three default schedules (prompt, lazy remote intake, lazy local intake): both quiet trees equal a reference "
             "three-way merge computed on a dict tree.", NOTE_E1, "5/C04"),
     "C05": ("seqx", TECH_E1,
@@ -45,19 +48,21 @@ CHECKS = {
             "engine steps: outcome table of the statement, resolver call count and arguments, and a singleton terminal "
             "observation per job (schedule independence). 'Late edit' jobs (a side is edited again while the first attempt is "
             "unfinished) check on every resolver call that each handle yields the bytes that side holds (or held at its last "
-            "intake), recording whether the engine's recorded hash was current.", NOTE_E1, "5/C05"),
+            "intake), recording whether the engine's recorded hash was current. Accounts with different content-hash functions are "
+            "included (equal bytes must still be recognised as equal).", NOTE_E1, "5/C05"),
     "C06": ("seqx", "exhaustive enumeration of stop points x restart modes on explored executions of the real engine",
             "For every step boundary of every base execution (prompt and users-first schedules of one-sided and disjoint "
             "histories on a DictStorage) the engine is dropped, the users finish their scripts while it is down, and a new engine "
             "is started over the same storage in three modes (intact, cursor removed, cursor rejected); after quiescence: "
             "convergence, no loss, no new artefact, no spurious transfer (intact) / every created or modified object present on "
-            "both sides (cursor lost); case-only renames on case-insensitive flavours included. Judged only when the undisturbed run passes (differential gating).",
+            "both sides (cursor lost); case-only renames on case-insensitive flavours and first-ever starts (tree present before any engine ran) included; an engine that is quiet by state but still reports pending work counts as a failure. Judged only when the undisturbed run passes (differential gating).",
             NOTE_E1, "5/C06"),
     "C07": ("seqx", "exhaustive crash-point enumeration (every storage write, every engine provider write) on explored executions",
             "Within every base execution each storage create/update/delete is taken as a crash instant (die before it) and each "
             "effective engine provider write as a crash instant (die right after it); writes after death are refused; a new engine "
             "restarts over the storage and provider contents of that instant under three post-restart schedules (fair, sync loop "
-            "first, remote events first), four provider flavours: convergence, no loss, no artefact for one-sided histories.", NOTE_E1 + " A crash is 'process disappears between two calls'; torn rows are SQLite's contract.", "5/C07"),
+            "first, remote events first), four provider flavours, including first-ever starts (initial walk, first cursor and first "
+            "rows inside the run): convergence, no loss, no artefact for one-sided histories, engine not left reporting pending work.", NOTE_E1 + " A crash is 'process disappears between two calls'; torn rows are SQLite's contract.", "5/C07"),
     "C10": ("seqx", "exhaustive fault-placement enumeration (every engine API call x 4 error kinds, before/after effect)",
             "Every provider API call the engine makes in a base execution is failed once with a temporary, disconnected, token or "
             "out-of-space error before its effect, every mutating call also right after its effect; plus permanent per-path "
@@ -80,7 +85,8 @@ CHECKS = {
             "All sequences of raw state-level operations (events for both id styles, split, discard, conflict, finish, "
             "side-state move, field assignments) to depth 2 on the full and depth 3 on a reduced alphabet on a bare SyncState, "
             "plus the same index/pending-set invariants after every transition of an engine exploration - on the live state and, for a "
-            "quarter of the jobs, on a SyncState rebuilt from a copy of the storage (what a restart would load).",
+            "quarter of the jobs, on a SyncState rebuilt from a copy of the storage (what a restart would load); id take-over histories "
+            "(a name freed and re-used by rename on path-id flavours) are part of the monitored list.",
             NOTE_E1, "5/C11"),
     "C12": ("seqx", TECH_E1 + " with a confinement monitor",
             "Accounts with content outside both roots (another folder, a prefix-sibling folder, a file at the account root); "
@@ -104,7 +110,7 @@ CHECKS = {
     "C15": ("thrx+seqx", TECH_E3 + "; lock-ownership monitor on explored engine executions",
             "(a) Every call of a SyncState mutation entry point made while state.lock is not owned by the calling thread is "
             "recorded with its call site, over a deviation-bounded engine exploration and over every public entry point an "
-            "application thread may call; (b) the real CloudSync with its sync loop, two event loops and an application thread "
+            "application thread may call, and state.lock must stay the same object throughout; (b) the real CloudSync with its sync loop, two event loops and an application thread "
             "runs under a controlled scheduler with cooperative locks, every schedule with <=1 (2 thorough) preemptions, followed "
             "by the convergence and index-integrity oracles.",
             "Trusted: scheduling points at lock and wait operations are sufficient given (a); single attribute/dict operations "
@@ -122,19 +128,20 @@ CHECKS = {
             "operation, intake step, sync step and ticks up to depth 7 (9 thorough) is executed for two ageing values and five "
             "prioritise functions; at every pick the entry handed to the sync routine must be eligible and minimal by (priority, "
             "age), a negative priority must be justified by prioritize() of a path the entry has now, and every engine write must "
-            "come at least the ageing interval after the last notification for that object unless its priority is negative; plus a "
-            "starvation scenario.", NOTE_E1, "5/C17"),
+            "come at least the ageing interval after the last notification for that object unless its priority is negative; plus every "
+            "order of 3-4 notifications for entries pending on both sides, and a starvation scenario.", NOTE_E1, "5/C17"),
     "C20": ("seqx", TECH_E1,
             "SmartCloudSync with application calls (request, un-request, list) as explorer actions next to user operations and "
             "engine steps, every interleaving: no local file that is not local-origin, requested or predicate-matched after any "
             "action; listing flags; at quiet states folders mirrored, local creations uploaded, requested files byte-equal, "
-            "un-request keeps the remote copy with the newest bytes.", NOTE_E1, "5/C20"),
+            "un-request keeps the remote copy with the newest bytes, also when the upload of the pending edit hits a transient error.", NOTE_E1, "5/C20"),
     "C18": ("thrx+enumx", TECH_E3 + " (line-level scheduling points in runnable.py/notification.py); " + TECH_E4 + " for the backoff law",
             "Six stop/start/wake scenarios, two notification scenarios and two long-poll scenarios run on real threads with a "
             "scheduling point at every source line of runnable.py and every Event/Thread/Queue operation, all schedules with <=2 "
             "(3 thorough) preemptions: no work call after stop() returned, cleanup exactly once for a final stop, restart refused, "
             "no deadlock, no exception in any thread, FIFO exactly-once notifications surviving a raising handler. The backoff "
-            "law is checked on every outcome sequence up to length 5 (6) for five parameter triples under a virtual clock.",
+            "law is checked on every outcome sequence up to length 5 (6) for five parameter triples under a virtual clock, and on "
+            "LongPollManager for every sequence of long_poll outcomes (events / none / raises / raises after the timeout).",
             "Trusted: the shims for threading/queue/time; line granularity (GIL-atomic attribute access).", "5/C18"),
     "C19": ("apix", TECH_E2,
             "Every call sequence up to depth 3 (4 in thorough) over the cache API on colliding paths and ids, for both case "
